@@ -7,7 +7,7 @@ C28 driver.  One output line per op line (stateless).
   pack   T w fill outlen xs     unchecked_pack(w, xs, out) with out = [fill; outlen]      -> `ok <out>` | `panic`
   unpack T w fill outlen ws     unchecked_unpack(w, ws, out) with out = [fill; outlen]    -> `ok <out>` | `panic`
   fin|finmin O hexbuf offsets   fsst::compress of an array (O = 32|64 offset bits)        -> `copy st=<h> out=<h> offs=<list>` | `fsst`
-  dec    O hexsymtab hexcodes offsets   fsst::decompress                                  -> `ok <hex> <offsets>` | `err:<kind>`
+  dec    O hexsymtab hexcodes offsets   fsst::decompress                                  -> `ok <hex> <offsets> term=<t> termfree=<bool>` | `err:<kind>`
 -/
 namespace LanceModel.C28.Driver
 open LanceModel.Util LanceModel.C28 LanceModel.C28.Fsst
@@ -83,7 +83,11 @@ def step (s : Unit) (line : String) : Unit × String :=
     match parseHex st, parseHex codes, parseNatList offs with
     | some st, some codes, some offs =>
       match decompressApi st.toArray codes offs with
-      | .ok (out, oo) => (s, "ok " ++ showHex out ++ " " ++ showNatList oo)
+      | .ok (out, oo) =>
+        match parseTable st.toArray with
+        | .ok t => (s, "ok " ++ showHex out ++ " " ++ showNatList oo ++ " term=" ++ toString t.term ++
+            " termfree=" ++ showBool t.termFree)
+        | .error e => (s, showErr e)
       | .error e => (s, showErr e)
     | _, _, _ => (s, bad)
   | _ => (s, bad)
